@@ -195,15 +195,21 @@ class Machine:
         mp.ensure_parsed(b)
         fr = Frame(b)
         for i, a in enumerate(args): fr.locals[i + 1] = a
+        d = self.depth = getattr(self, 'depth', 0) + 1
+        if d > getattr(self, 'max_depth', 0): self.max_depth = d
         try:
             return self.run(fr)
         except (Panic, PathEnd, Unsupported): raise
+        except RecursionError:
+            raise Unsupported("call depth %d exceeds the interpreter's own stack" % d)
         except Exception as e:
             if type(e).__name__ == 'Exit': raise
             if not getattr(e, '_ctx', None):
                 e._ctx = True
                 raise Unsupported("internal %s: %s in %s at %r" % (type(e).__name__, e, b.name, getattr(self, 'cur_stmt', None)))
             raise
+        finally:
+            self.depth = d - 1
 
     def run(self, fr):
         b = fr.body; bb = 0
